@@ -209,6 +209,15 @@ def spokes_case(rng):
     ns = rng.randint(1, 6)
     scale = logu(rng, 0.01, 1.0)
     k = [[rng.uniform(-1, 1) * scale, rng.uniform(-1, 1) * scale] for _ in range(ns)]
+    if rng.random() < 0.4:
+        # spoke locations on a regular 1/fov grid (the usual design): increments on the two axes then tie in magnitude,
+        # with equal or opposite signs, or vanish on one axis
+        d = scale / 3
+        k = [[rng.randint(-3, 3) * d, rng.randint(-3, 3) * d] for _ in range(ns)]
+        if rng.random() < 0.5:
+            j = rng.randrange(ns)
+            m = rng.randint(1, 3) * d
+            k[j] = [m * rng.choice([-1, 1]), m * rng.choice([-1, 1])]      # diagonal location: the final return to 0 ties too
     if rng.random() < 0.3:
         k[rng.randrange(ns)][rng.randrange(2)] = 0.0
     if ns > 1 and rng.random() < 0.3:       # repeated location: zero increment on both axes
